@@ -41,6 +41,8 @@ def run_one(m, repo_src='/repo/src'):
                 return 'KILLED', f'{len(viol)} violations ({conf} replayed natively); ' + first.split('obligation=')[-1][:120]
             if r.returncode in (2, 3):
                 return 'UNDECIDED', (und[0][:200] if und else out[-300:])
+            if r.returncode == 1:
+                return 'KILLED-OTHER', f'expected obligation ~{m.get("obligation")} but got: ' + '; '.join(v.split('obligation=')[-1][:70] for v in viol[:4])
             return 'SURVIVED', f'exit {r.returncode}: ' + (viol[0][:200] if viol else out[-200:])
         else:
             if r.returncode == 0:
